@@ -1,4 +1,4 @@
 SPECIFICATION SSpec
-CONSTANT Counts <- C322
+CONSTANT CountsSet <- Thorough
 CONSTRAINT Emit
 CHECK_DEADLOCK FALSE
